@@ -281,6 +281,8 @@ class InterSystemRecurrenceNetwork(InteractingNetworks):
         #  with the new recurrence plots
         if getattr(self, "sp_A", None) is not None:
             self.adjacency = ISRM
+        #  the thresholds now in force (reported by __str__)
+        self.threshold = threshold
         return ISRM
 
     def set_fixed_recurrence_rate(self, density):
@@ -317,6 +319,8 @@ class InterSystemRecurrenceNetwork(InteractingNetworks):
         #  with the new recurrence plots
         if getattr(self, "sp_A", None) is not None:
             self.adjacency = ISRM
+        #  no fixed thresholds are in force any more
+        self.threshold = None
         return ISRM
 
     #
